@@ -70,8 +70,20 @@ enum Outcome {
 
 const WATCHDOG_SECS: u64 = 20;
 
+/// fits that hit the watchdog so far: after 3 the watchdog shrinks to 3 s, after 8 the remaining search is skipped
+/// (the verdict is a violation already; a change that makes many fits loop must not make the check run for hours)
+static TIMEOUTS: std::sync::atomic::AtomicUsize = std::sync::atomic::AtomicUsize::new(0);
+fn timeouts() -> usize {
+    TIMEOUTS.load(std::sync::atomic::Ordering::SeqCst)
+}
+const MAX_TIMEOUTS: usize = 8;
+
 fn run_fit(c: &Case, y: &[f64]) -> Outcome {
-    run_fit_secs(c, y, WATCHDOG_SECS)
+    let r = run_fit_secs(c, y, if timeouts() >= 3 { 3 } else { WATCHDOG_SECS });
+    if let Outcome::Timeout = r {
+        TIMEOUTS.fetch_add(1, std::sync::atomic::Ordering::SeqCst);
+    }
+    r
 }
 fn run_fit_secs(c: &Case, y: &[f64], secs: u64) -> Outcome {
     let c = c.clone();
@@ -376,15 +388,59 @@ fn evaluate(c: &Case) -> (Vec<Fail>, Option<(Outcome, Reference)>) {
 }
 
 // ------------------------------------------------------------------------------------------
+// small iteration budgets (valid settings): the fit must return Ok without panic or loop, and whatever it returns
+// must satisfy predict(X) = X*coefficients + intercept = mean(y) + Z*w (near-optimality is not asked for here)
+// ------------------------------------------------------------------------------------------
+fn evaluate_budget(c: &Case) -> Vec<Fail> {
+    let mut fails = vec![];
+    let who = if c.enet { "elastic net" } else { "lasso" };
+    match run_fit(c, &c.y) {
+        Outcome::Timeout => fails.push(Fail { oracle: "termination", what: format!("{}: fit with max_iter = {} did not return", who, c.max_iter) }),
+        Outcome::Panic(m) => fails.push(Fail { oracle: "no_panic", what: format!("{}: fit with max_iter = {} panicked: {}", who, c.max_iter, m) }),
+        Outcome::Err(e, _) => fails.push(Fail { oracle: "valid_input_fits", what: format!("{}: fit with max_iter = {} returned Err on a valid input: {}", who, c.max_iter, e) }),
+        Outcome::Ok(f, runs) => {
+            let n = c.x.len();
+            let p = c.x[0].len();
+            if f.coef.len() != p || f.pred.len() != n || f.coef.iter().any(|v| !v.is_finite()) || !f.intercept.is_finite() {
+                fails.push(Fail { oracle: "finite_output", what: format!("{}: coefficients/intercept not finite or of wrong length: {:?} {}", who, f.coef, f.intercept) });
+                return fails;
+            }
+            let d = design(&c.x, c.normalize);
+            let ymean = mean(&c.y);
+            let w: Vec<f64> = (0..p).map(|j| f.coef[j] * d.stds[j]).collect();
+            let zw = matvec(&d.z, &w);
+            let pscale = 1.0 + c.y.iter().fold(0.0f64, |a, b| a.max(b.abs())) + zw.iter().fold(0.0f64, |a, b| a.max(b.abs()));
+            for i in 0..n {
+                let direct: f64 = c.x[i].iter().zip(&f.coef).map(|(a, b)| a * b).sum::<f64>() + f.intercept;
+                let xs = c.x[i].iter().zip(&f.coef).map(|(a, b)| (a * b).abs()).sum::<f64>();
+                let tol_i = 1e-9 * (pscale + xs);
+                if (f.pred[i] - direct).abs() > tol_i || (f.pred[i] - (ymean + zw[i])).abs() > tol_i {
+                    fails.push(Fail { oracle: "back_transform", what: format!("{}: predict(X)[{}] = {:e}, X*coefficients + intercept = {:e}, mean(y) + Z*w = {:e}", who, i, f.pred[i], direct, ymean + zw[i]) });
+                    break;
+                }
+            }
+            // the iteration budget is respected
+            if let Some(r) = runs.first() {
+                if r.iters.len() > c.max_iter {
+                    fails.push(Fail { oracle: "max_iter_respected", what: format!("{}: {} outer iterations with max_iter = {}", who, r.iters.len(), c.max_iter) });
+                }
+            }
+        }
+    }
+    fails
+}
+
+// ------------------------------------------------------------------------------------------
 // invalid settings (Lasso): must be Err, never a panic or a loop
 // ------------------------------------------------------------------------------------------
 fn evaluate_invalid(c: &Case) -> Vec<Fail> {
     let mut fails = vec![];
+    let who = if c.enet { "elastic net" } else { "lasso" };
     match run_fit(c, &c.y) {
         Outcome::Err(_, _) => {}
-        Outcome::Timeout => fails.push(Fail { oracle: "invalid_is_err", what: "lasso: fit with an invalid setting did not return (loop)".into() }),
-        Outcome::Panic(m) => fails.push(Fail { oracle: "invalid_is_err", what: format!("lasso: fit with an invalid setting panicked instead of returning Err: {}", m) }),
-        Outcome::Ok(f, _) => fails.push(Fail { oracle: "invalid_is_err", what: format!("lasso: fit with an invalid setting returned Ok (coefficients {:?})", f.coef) }),
+        Outcome::Timeout => fails.push(Fail { oracle: "invalid_is_err", what: format!("{}: fit with an invalid setting did not return (loop)", who) }),
+        Outcome::Panic(m) => fails.push(Fail { oracle: "invalid_is_err", what: format!("{}: fit with an invalid setting panicked instead of returning Err: {}", who, m) }),
+        Outcome::Ok(f, _) => fails.push(Fail { oracle: "invalid_is_err", what: format!("{}: fit with an invalid setting returned Ok (coefficients {:?})", who, f.coef) }),
     }
     fails
 }
@@ -488,14 +544,27 @@ fn coq_result(f: Option<&FitOut>) -> String {
 
 /// one correspondence case: the fit re-checked by the model on the optimiser's own records
 fn corr_case(out: &mut Out, c: &Case, group: &str) {
+    if timeouts() >= MAX_TIMEOUTS {
+        out.count("corr-skipped:after-8-timeouts");
+        return;
+    }
     let input = case_json(c, "corr");
     let outcome = run_fit(c, &c.y);
     let (res, runs): (Option<FitOut>, Vec<VerifLassoRun>) = match outcome {
         Outcome::Ok(f, r) => (Some(f), r),
         Outcome::Err(_, r) => (None, r),
-        _ => return, // panics / loops are the search's business
+        Outcome::Timeout => {
+            // a loop is a failure of the property itself, not of the correspondence
+            out.fail("termination", &format!("{}: fit did not return within {} s (correspondence input)", if c.enet { "elastic net" } else { "lasso" }, WATCHDOG_SECS), case_json(c, "fit"));
+            return;
+        }
+        Outcome::Panic(m) => {
+            out.fail("no_panic", &format!("{}: fit panicked (correspondence input): {}", if c.enet { "elastic net" } else { "lasso" }, m), case_json(c, "fit"));
+            return;
+        }
     };
     if runs.len() > 1 {
+        out.count("corr-skipped:several-optimize-calls");
         return;
     }
     // dual seed for the certificate: reference solution in the optimiser's coordinates
@@ -507,19 +576,49 @@ fn corr_case(out: &mut Out, c: &Case, group: &str) {
     } else {
         vec![]
     };
-    let ctol = C_TOL * c.tol;
+    // shrink factor of the validator's dual point: its feasibility test is exact, so the point is pulled inside by
+    // 16 ulp times the cancellation ratio of X^T nu (at least 2^-30); what that costs is added to the tolerance
+    let mut shrink = 1.0 - 2f64.powi(-30);
+    let mut cert = res.is_some() && !wd.is_empty();
+    if !wd.is_empty() {
+        let rf = reference(c, &c.y);
+        let gamma = 1.0 / (1.0 + rf.l2).sqrt();
+        let pad = gamma * rf.l2.sqrt();
+        let p = wd.len();
+        let lam = (rf.l1 * gamma).max(f64::EPSILON);
+        let nu0: Vec<f64> = matvec(&rf.d.z, &wd).iter().zip(&rf.yc).map(|(a, b)| 2.0 * (gamma * a - b)).collect();
+        let mut mx: f64 = 0.0;
+        let mut ab: f64 = 0.0;
+        for j in 0..p {
+            let v: f64 = (0..nu0.len()).map(|i| gamma * rf.d.z[i][j] * nu0[i]).sum::<f64>() + pad * 2.0 * pad * wd[j];
+            let a: f64 = (0..nu0.len()).map(|i| (gamma * rf.d.z[i][j] * nu0[i]).abs()).sum::<f64>() + (pad * 2.0 * pad * wd[j]).abs();
+            mx = mx.max(v.abs());
+            ab = ab.max(a);
+        }
+        let kappa = ab / mx.min(lam).max(1e-300);
+        shrink = 1.0 - (16.0 * f64::EPSILON * kappa).max(2f64.powi(-30)).min(0.5);
+        if shrink < 1.0 - 1e-7 {
+            // X^T nu is rounding noise compared with its terms (penalty far below the property's range: alpha < 1e-3):
+            // the float run of the validator cannot certify anything there
+            out.count(if c.alpha >= 1e-3 { "corr-cert:shrunk-by>1e-7" } else { "corr-cert:not-attempted(alpha<1e-3,cancellation)" });
+            if c.alpha < 1e-3 {
+                cert = false;
+            }
+        }
+    }
+    let ctol = C_TOL * c.tol + 4.0 * (1.0 - shrink);
     let run = coq_option(runs.first().map(coq_run));
     let term = if c.enet {
         format!(
-            "corr_enet {} {} {} {} {} {} {} {} {} {} {}",
+            "corr_enet {} {} {} {} {} {} {} {} {} {} {} {}",
             coq_rows_f64(&c.x), coq_list_f64(&c.y), coq_f64(c.alpha), coq_f64(c.l1_ratio), coq_bool(c.normalize), coq_f64(c.tol),
-            coq_n(c.max_iter), run, coq_result(res.as_ref()), coq_list_f64(&wd), coq_f64(ctol)
+            coq_n(c.max_iter), run, coq_result(res.as_ref()), coq_option(if cert { Some(coq_list_f64(&wd)) } else { None }), coq_f64(shrink), coq_f64(ctol)
         )
     } else {
         format!(
-            "corr_lasso {} {} {} {} {} {} {} {} {} {}",
+            "corr_lasso {} {} {} {} {} {} {} {} {} {} {}",
             coq_rows_f64(&c.x), coq_list_f64(&c.y), coq_f64(c.alpha), coq_bool(c.normalize), coq_f64(c.tol),
-            coq_n(c.max_iter), run, coq_result(res.as_ref()), coq_list_f64(&wd), coq_f64(ctol)
+            coq_n(c.max_iter), run, coq_result(res.as_ref()), coq_option(if cert { Some(coq_list_f64(&wd)) } else { None }), coq_f64(shrink), coq_f64(ctol)
         )
     };
     out.corr(group, term, input);
@@ -539,6 +638,10 @@ fn record(out: &mut Out, c: &Case, fails: Vec<Fail>, entry: &str) {
 }
 
 fn search_case(out: &mut Out, c: &Case, family: &str) {
+    if timeouts() >= MAX_TIMEOUTS {
+        out.count("search:skipped-after-8-timeouts");
+        return;
+    }
     let (fails, info) = evaluate(c);
     let mut nontrivial = false;
     if let Some((base, rf)) = &info {
@@ -595,15 +698,25 @@ fn invalid_cases(rng: &mut Rng) -> Vec<(Case, &'static str)> {
         c.y.push(0.5);
     }
     v.push((c, "length-mismatch"));
-    // constant column under normalisation
-    let mut c = base(rng);
-    c.normalize = true;
-    let j = rng.below(c.x[0].len());
-    let val = *rng.pick(&[0.0, 1.0, 3.5, -2.0, 100.0]);
-    for r in c.x.iter_mut() {
-        r[j] = val;
+    // constant column under normalisation, any value (repaired af78fc0: only values whose one-pass variance rounds to
+    // exactly zero used to be rejected), Lasso and ElasticNet
+    for enet in [false, true] {
+        let mut c = base(rng);
+        c.normalize = true;
+        c.enet = enet;
+        c.l1_ratio = if enet { *rng.pick(&[1.0, 0.5, 0.1]) } else { 1.0 };
+        let j = rng.below(c.x[0].len());
+        let val = match rng.below(4) {
+            0 => *rng.pick(&[0.0, 1.0, 3.5, -2.0, 100.0]),
+            1 => *rng.pick(&[0.1, 0.3, 0.7, 1.1, -0.1, 123.456, 1e6 + 0.3, 1e-9, -3.3e4]),
+            2 => rng.uniform(-5.0, 5.0),
+            _ => 10f64.powf(rng.uniform(-6.0, 6.0)) * if rng.bool() { 1.0 } else { -1.0 },
+        };
+        for r in c.x.iter_mut() {
+            r[j] = val;
+        }
+        v.push((c, if enet { "constant-column(enet)" } else { "constant-column" }));
     }
-    v.push((c, "constant-column"));
     v
 }
 
@@ -627,6 +740,7 @@ fn replay(path: &str) -> i32 {
     }
     let fails = match inp["entry"].as_str().unwrap_or("fit") {
         "invalid" => evaluate_invalid(&c),
+        "budget" => evaluate_budget(&c),
         _ => evaluate(&c).0,
     };
     if fails.is_empty() {
@@ -647,6 +761,8 @@ fn main() {
         std::process::exit(replay(p));
     }
     let mut rng = Rng::new(a.seed);
+    let t_start = std::time::Instant::now();
+    let timing = std::env::var("C08_TIMING").is_ok();
     if std::env::var("C08_PROBE").is_ok() {
         // diagnosis aid (not part of the check): hang / failure frequency per decade of the target scale
         for dec in -8i32..=10 {
@@ -716,28 +832,55 @@ fn main() {
         }
         let c = Case { enet: false, x: vec![vec![-0.5625], vec![-0.125], vec![0.0625], vec![-0.1875]], y: vec![15.5625; 4], alpha: 1e-3, l1_ratio: 1.0, normalize: true, tol: 1e-5, max_iter: 1000, shift: 0.0 };
         search_case(&mut out, &c, "corpus-constant-target");
+        // corpus: constant column with a non-dyadic value (repaired af78fc0): 0.1 x 3 never returned, 0.3 x 3 returned Ok
+        for &(v, n) in &[(0.1f64, 3usize), (0.3, 3), (0.3, 6), (0.7, 6)] {
+            for &enet in &[false, true] {
+                let x: Vec<Vec<f64>> = (0..n).map(|_| vec![v]).collect();
+                let y: Vec<f64> = (0..n).map(|i| i as f64).collect();
+                let c = Case { enet, x, y, alpha: 0.1, l1_ratio: if enet { 0.5 } else { 1.0 }, normalize: true, tol: 1e-4, max_iter: 1000, shift: 0.0 };
+                out.eval(case_key(&c), true);
+                out.count("search:invalid:corpus-constant-column");
+                let fails = evaluate_invalid(&c);
+                record(&mut out, &c, fails, "invalid");
+                corr_case(&mut out, &c, if c.enet { "enet_invalid" } else { "lasso_invalid" });
+            }
+        }
     }
 
+    if timing { eprintln!("[c08 timing] {:.1}s before: // ---- correspondence ----", t_start.elapsed().as_secs_f64()); }
     // ---- correspondence ----
-    let ncorr = if a.thorough { 160 } else { 48 };
+    // every case = one whole fit whose recorded outer iterations (5..40 each) are re-derived one by one
+    // by the model inside Coq; shapes up to 16 x 5 (augmented: 21 x 5)
+    let ncorr = if a.thorough { 2500 } else { 600 };
     for i in 0..ncorr {
         let enet = i % 2 == 1;
-        let mut c = gen_case(&mut rng, 9, 3, enet, i % 3 == 0);
+        let (nmax, pmax) = match i % 5 { 0 => (6, 2), 1 => (9, 3), 2 | 3 => (12, 4), _ => (16, 5) };
+        let mut c = gen_case(&mut rng, nmax, pmax, enet, i % 3 == 0);
         c.shift = 0.0;
         if i % 8 == 5 {
             c.max_iter = rng.usize_in(1, 6); // leave through the iteration budget
         }
+        if i % 16 == 7 {
+            c.alpha = 1e-9; // almost no penalty (alpha = 0 exactly never returns: reported finding, outside the quantifier)
+        }
+        if i % 32 == 9 {
+            let v = *rng.pick(&[0.0, 1.0, -2.5]);
+            for yi in c.y.iter_mut() {
+                *yi = v; // constant target: first test closes the gap (repair eff8af9)
+            }
+        }
         corr_case(&mut out, &c, if enet { "enet_fit" } else { "lasso_fit" });
     }
     // invalid settings through the model's validation
-    for _ in 0..(if a.thorough { 6 } else { 2 }) {
+    for _ in 0..(if a.thorough { 12 } else { 4 }) {
         for (c, _) in invalid_cases(&mut rng) {
-            corr_case(&mut out, &c, "lasso_invalid");
+            corr_case(&mut out, &c, if c.enet { "enet_invalid" } else { "lasso_invalid" });
         }
     }
 
+    if timing { eprintln!("[c08 timing] {:.1}s before: // ---- search ----", t_start.elapsed().as_secs_f64()); }
     // ---- search ----
-    let nsearch = if a.thorough { 4000 } else { 400 };
+    let nsearch = if a.thorough { 100000 } else { 10000 };
     for i in 0..nsearch {
         let enet = i % 2 == 1;
         let c = gen_case(&mut rng, 60, 6, enet, false);
@@ -746,8 +889,9 @@ fn main() {
             out.sample(json!({"enet": c.enet, "n": c.x.len(), "p": c.x[0].len(), "alpha": c.alpha, "tol": c.tol, "normalize": c.normalize, "l1_ratio": c.l1_ratio, "shift": c.shift}));
         }
     }
+    if timing { eprintln!("[c08 timing] {:.1}s before: // small / boundary shapes", t_start.elapsed().as_secs_f64()); }
     // small / boundary shapes: n = p + 1, p = 1
-    for i in 0..(if a.thorough { 600 } else { 80 }) {
+    for i in 0..(if a.thorough { 6000 } else { 800 }) {
         let enet = i % 2 == 1;
         let mut c = gen_case(&mut rng, 8, 6, enet, i % 4 == 0);
         if i % 3 == 0 {
@@ -762,8 +906,9 @@ fn main() {
         }
         search_case(&mut out, &c, "small");
     }
+    if timing { eprintln!("[c08 timing] {:.1}s before: // targets at small and large scales", t_start.elapsed().as_secs_f64()); }
     // targets at small and large scales, 1e-8 .. 1e4 x unit (the objective is homogeneous of degree 2 in y when alpha scales along)
-    for i in 0..(if a.thorough { 600 } else { 60 }) {
+    for i in 0..(if a.thorough { 6000 } else { 600 }) {
         let enet = i % 2 == 1;
         let mut c = gen_case(&mut rng, 40, 6, enet, false);
         // scales above ~1e5 x unit can hang (reported finding: NaN direction + unbounded line search); the
@@ -778,9 +923,10 @@ fn main() {
         }
         search_case(&mut out, &c, "y-scale");
     }
+    if timing { eprintln!("[c08 timing] {:.1}s before: // constant targets (repaired", t_start.elapsed().as_secs_f64()); }
     // constant targets (repaired defect eff8af9: Err("tolerance shoud be > 0") for a generic alpha, a hang when
     // n*alpha is a power of two below 1): the optimum is w = 0, intercept = mean(y)
-    for i in 0..(if a.thorough { 60 } else { 12 }) {
+    for i in 0..(if a.thorough { 600 } else { 120 }) {
         let enet = i % 2 == 1;
         let mut c = gen_case(&mut rng, 12, 3, enet, false);
         let v = *rng.pick(&[0.0, 1.0, 15.5625, -3.0]);
@@ -794,14 +940,142 @@ fn main() {
         c.shift = if i % 4 == 0 { 10.0 } else { 0.0 };
         search_case(&mut out, &c, "constant-target");
     }
+    if timing { eprintln!("[c08 timing] {:.1}s before: // lattice data:", t_start.elapsed().as_secs_f64()); }
+    // lattice data: p in {1,2}, small integer entries (all of X^T X, X^T y exact), penalty grid through the whole path
+    for i in 0..(if a.thorough { 12000 } else { 1500 }) {
+        let p = rng.usize_in(1, 2);
+        let n = rng.usize_in(p + 1, 5);
+        let x: Vec<Vec<f64>> = (0..n).map(|_| (0..p).map(|_| rng.int(-3, 3) as f64).collect()).collect();
+        if (0..p).any(|j| x.iter().all(|r| r[j] == x[0][j])) {
+            continue;
+        }
+        // moderately conditioned: skip (near-)collinear pairs
+        if p == 2 {
+            let m0 = mean(&x.iter().map(|r| r[0]).collect::<Vec<_>>());
+            let m1 = mean(&x.iter().map(|r| r[1]).collect::<Vec<_>>());
+            let (mut s00, mut s11, mut s01) = (0.0, 0.0, 0.0);
+            for r in &x {
+                s00 += (r[0] - m0) * (r[0] - m0);
+                s11 += (r[1] - m1) * (r[1] - m1);
+                s01 += (r[0] - m0) * (r[1] - m1);
+            }
+            let raw = {
+                let (a, b, c2) = (x.iter().map(|r| r[0] * r[0]).sum::<f64>(), x.iter().map(|r| r[1] * r[1]).sum::<f64>(), x.iter().map(|r| r[0] * r[1]).sum::<f64>());
+                c2 * c2 / (a * b)
+            };
+            if s01 * s01 > 0.9 * s00 * s11 || raw > 0.9 {
+                out.count("search:lattice:skipped-collinear");
+                continue;
+            }
+        }
+        let y: Vec<f64> = (0..n).map(|_| rng.int(-4, 4) as f64).collect();
+        let enet = i % 2 == 1;
+        let c = Case {
+            enet,
+            x,
+            y,
+            alpha: *rng.pick(&[1e-3, 0.01, 0.1, 0.25, 0.5, 1.0, 2.0, 5.0, 20.0]),
+            l1_ratio: if enet { *rng.pick(&[1.0, 0.5, 0.1]) } else { 1.0 },
+            normalize: rng.bool(),
+            tol: *rng.pick(&[1e-3, 1e-4, 1e-6]),
+            max_iter: 1000,
+            shift: *rng.pick(&[0.0, 0.0, 3.0, -100.0]),
+        };
+        search_case(&mut out, &c, "lattice");
+    }
+    if timing { eprintln!("[c08 timing] {:.1}s before: // correlated columns", t_start.elapsed().as_secs_f64()); }
+    // correlated columns (still moderately conditioned: pairwise correlation pushed up to ~0.9)
+    for i in 0..(if a.thorough { 6000 } else { 600 }) {
+        let enet = i % 2 == 1;
+        let mut c = gen_case(&mut rng, 40, 6, enet, false);
+        let p = c.x[0].len();
+        if p < 2 {
+            continue;
+        }
+        let n = c.x.len();
+        let col0: Vec<f64> = c.x.iter().map(|r| r[0]).collect();
+        let m0 = mean(&col0);
+        let s0 = (col0.iter().map(|v| (v - m0) * (v - m0)).sum::<f64>() / n as f64).sqrt();
+        for j in 1..p {
+            let cj: Vec<f64> = c.x.iter().map(|r| r[j]).collect();
+            let mj = mean(&cj);
+            let sj = (cj.iter().map(|v| (v - mj) * (v - mj)).sum::<f64>() / n as f64).sqrt();
+            let k = rng.uniform(0.5, 2.0) * if rng.bool() { 1.0 } else { -1.0 };
+            for r in 0..n {
+                c.x[r][j] += k * sj / s0 * (c.x[r][0] - m0);
+            }
+        }
+        // the penalty regime was drawn for the old design: redraw it relative to the new alpha_max
+        let amax = reference(&c, &c.y).alpha_max.max(2e-3);
+        c.alpha = (1e-3f64.ln() + rng.unit() * ((1.5 * amax).ln() - 1e-3f64.ln())).exp();
+        search_case(&mut out, &c, "correlated");
+    }
+    if timing { eprintln!("[c08 timing] {:.1}s before: // default parameters of", t_start.elapsed().as_secs_f64()); }
+    // default parameters of the two estimators on random data
+    for i in 0..(if a.thorough { 3000 } else { 300 }) {
+        let enet = i % 2 == 1;
+        let mut c = gen_case(&mut rng, 60, 6, enet, false);
+        c.alpha = 1.0;
+        c.l1_ratio = if enet { 0.5 } else { 1.0 };
+        c.normalize = true;
+        c.tol = 1e-4;
+        c.max_iter = 1000;
+        search_case(&mut out, &c, "defaults");
+    }
+    if timing { eprintln!("[c08 timing] {:.1}s before: // Longley (the data", t_start.elapsed().as_secs_f64()); }
+    // Longley (the data of the unit tests), penalty grid, both estimators, both normalisation settings
+    {
+        let x = vec![
+            vec![234.289, 235.6, 159.0, 107.608, 1947., 60.323], vec![259.426, 232.5, 145.6, 108.632, 1948., 61.122],
+            vec![258.054, 368.2, 161.6, 109.773, 1949., 60.171], vec![284.599, 335.1, 165.0, 110.929, 1950., 61.187],
+            vec![328.975, 209.9, 309.9, 112.075, 1951., 63.221], vec![346.999, 193.2, 359.4, 113.270, 1952., 63.639],
+            vec![365.385, 187.0, 354.7, 115.094, 1953., 64.989], vec![363.112, 357.8, 335.0, 116.219, 1954., 63.761],
+            vec![397.469, 290.4, 304.8, 117.388, 1955., 66.019], vec![419.180, 282.2, 285.7, 118.734, 1956., 67.857],
+            vec![442.769, 293.6, 279.8, 120.445, 1957., 68.169], vec![444.546, 468.1, 263.7, 121.950, 1958., 66.513],
+            vec![482.704, 381.3, 255.2, 123.366, 1959., 68.655], vec![502.601, 393.1, 251.4, 125.368, 1960., 69.564],
+            vec![518.173, 480.6, 257.2, 127.852, 1961., 69.331], vec![554.894, 400.7, 282.7, 130.081, 1962., 70.551],
+        ];
+        let y = vec![83.0, 88.5, 88.2, 89.5, 96.2, 98.1, 99.0, 100.0, 101.2, 104.6, 108.4, 110.8, 112.6, 114.2, 115.7, 116.9];
+        // normalize = true only: the raw Longley columns are collinear far beyond "moderately conditioned"
+        for &alpha in &[1e-3, 0.01, 0.1, 0.5, 1.0, 3.0, 10.0] {
+            for &enet in &[false, true] {
+                for &tol in &[1e-3, 1e-4, 1e-6] {
+                    let c = Case { enet, x: x.clone(), y: y.clone(), alpha, l1_ratio: if enet { 0.5 } else { 1.0 }, normalize: true, tol, max_iter: 1000, shift: if enet { 1000.0 } else { 0.0 } };
+                    search_case(&mut out, &c, "longley");
+                }
+            }
+        }
+    }
+    if timing { eprintln!("[c08 timing] {:.1}s before: // small iteration budgets on valid", t_start.elapsed().as_secs_f64()); }
+    // small iteration budgets on valid settings: Ok, finite, consistent, budget respected
+    for i in 0..(if a.thorough { 6000 } else { 600 }) {
+        if timeouts() >= MAX_TIMEOUTS {
+            out.count("search:skipped-after-8-timeouts");
+            continue;
+        }
+        let enet = i % 2 == 1;
+        let mut c = gen_case(&mut rng, 30, 6, enet, false);
+        c.shift = 0.0;
+        c.max_iter = rng.usize_in(1, 12);
+        out.eval(case_key(&c), true);
+        out.count("search:budget");
+        let fails = evaluate_budget(&c);
+        record(&mut out, &c, fails, "budget");
+    }
+    if timing { eprintln!("[c08 timing] {:.1}s before: // invalid settings", t_start.elapsed().as_secs_f64()); }
     // invalid settings
-    for _ in 0..(if a.thorough { 150 } else { 25 }) {
+    for _ in 0..(if a.thorough { 1500 } else { 250 }) {
         for (c, what) in invalid_cases(&mut rng) {
+            if timeouts() >= MAX_TIMEOUTS {
+                out.count("search:skipped-after-8-timeouts");
+                continue;
+            }
             out.eval(case_key(&c), true);
             out.count(&format!("search:invalid:{}", what));
             let fails = evaluate_invalid(&c);
             record(&mut out, &c, fails, "invalid");
         }
     }
+    if timing { eprintln!("[c08 timing] {:.1}s end", t_start.elapsed().as_secs_f64()); }
     out.finish(&a.out);
 }
